@@ -225,9 +225,9 @@ pub fn main(o: &Opts) -> i32 {
                             rep.count("violation", 1);
                             rep.violation(Violation { key: case.clone(), case, expected: "rejected at decoding or verification (the altered input decodes to a different proof object)".into(), observed: "accepted".into(), note: "altered proof".into() });
                         }
-                        Out::Panic(m) => {
-                            rep.count("panic (reported under C08 too)", 1);
-                            rep.violation(Violation { key: case.clone(), case, expected: "rejected".into(), observed: format!("panicked: {}", m), note: "altered proof".into() });
+                        Out::Panic(_) => {
+                            // not an acceptance; panics on hostile inputs are C08's business
+                            rep.count("precondition: decoder or verifier panicked (C08's business)", 1);
                         }
                     }
                 }
